@@ -105,6 +105,39 @@ check("C13", "model_checking",
       "covered only at the level of the protocol specs and the conformance of hook traces to them.",
       "TLA+ protocol model checking + TLC trace validation of hook traces + race detector on executed schedules", "DESIGN.md §5 C13")
 
+check("C15", "model_checking",
+      "PlyProtocol.tla transcribes the row protocol of PLYWriter/PLYReader (element skip loops, isDone/flush, EOF) and TLC "
+      "checks it against its requirements (attribution of rows to elements, exactly the declared number of rows, full "
+      "flush when the last declared row is written, rows read back in order with their element, EOF exactly at the end) "
+      "for every header with <= 3 (thorough 4) elements and counts 0..2 (0..3). Every such header is replayed through the "
+      "real writer -> bytes -> reader in ASCII / little / big endian with values at the type limits (and through "
+      "STLWriter/STLReader), every call is logged and PlyTrace validates each trace step by step against the PlyProtocol "
+      "actions with the requirements evaluated in every state. Mesh API: every abstract mesh of <= 1-2 faces over 4 vertex "
+      "names x three coordinate realisations (integers; float32 limits incl. -0, subnormals, 3e38; two vertices equal only "
+      "after rounding) through STL, coloured PLY, material / vertex-colour OBJ, 3MF and segment CSV; TLC (CodecJudge) "
+      "compares faces, order, orientation and colours. OFF / ASCII STL / PLY / CSV text rendered from the CodecFaults "
+      "grammar in every specified variant (with and without final newline, extra PLY elements) must decode to the mesh.",
+      "Trusted: TLC, the harness's independent encodings (encoding/binary, strconv) used to decide how many complete rows "
+      "reached the sink, Go's float32 conversion as the definition of 'rounded to the format's precision'. Byte-level "
+      "fidelity is compared, not modelled. MTL/texture contents and SVG are not covered.",
+      "TLA+ protocol model checking (TLC) + TLC trace validation of real writer/reader traces + TLC judging of round trips",
+      "DESIGN.md §5 C15")
+check("C16", "fault_enumeration",
+      "CodecFaults.tla models each format (OFF, ASCII and binary STL, ASCII and binary PLY incl. extra elements and 32-bit "
+      "list lengths, segment CSV) as a token stream and TLC enumerates every valid variant x every structured fault: "
+      "truncation at and inside every line, every token replaced by every value of its adversarial set (-1, 0, 2^22, "
+      "2^31-1, 2^32, 2^63-1, non-numeric, wrong keyword / type name), dropped and duplicated tokens and lines, blank "
+      "lines (18k cases quick). Each case is rendered to bytes and run through every decoder of the format (ReadOFF, "
+      "OFFReader, ReadSTL, STLReader, ReadColorPLY, PLYReader to EOF, NewPLYHeaderDecode, DecodeCSV, SegmentCSVReader) "
+      "with a panic guard, a 3 s deadline, a row-count bound and an allocation meter; a process death is attributed to "
+      "its case. TLC (CodecJudge) requires outcome in {data, error}, termination with <= 1 row per input byte, and "
+      "allocation <= 4 MiB + 1 KiB per input byte.",
+      "Trusted: TLC, runtime.MemStats.TotalAlloc as allocation meter (process-wide, cases run one at a time; records "
+      "after an abandoned hang are not judged for allocation). Faults are structured, not arbitrary byte noise. The "
+      "allocation bound has a 4 MiB constant because the decoders use bounded capacity hints (<= 2^16 entries).",
+      "TLA+ fault model enumerated by TLC, every case executed against the real decoders, outcomes judged by TLC",
+      "DESIGN.md §5 C16")
+
 _pending = "check not built yet in this session (planned, see DESIGN.md §10)"
 for pid in ["C01","C02","C03","C04","C05","C06","C07","C08","C10","C11","C12","C13","C14","C15","C16","C17","C18","C20"]:
     if pid not in CHECKS:
